@@ -416,6 +416,10 @@ class Interp:
                 f0, pre, prek = a[0], list(a[1:]), dict(k)
                 return PyCallable(lambda it2, a2, k2: it2.call(f0, pre + list(a2), dict(prek, **k2)))
             return PyCallable(_partial)
+        if module == "contextlib" and attr == "nullcontext":
+            return PyCallable(lambda it, a, k: NullContext(a[0] if a else k.get("enter_result")))
+        if module == "contextlib" and attr == "suppress":
+            return PyCallable(lambda it, a, k: SuppressContext(tuple(getattr(x, "name", str(x)) for x in a)))
         if module == "re" and attr in ("split", "match", "fullmatch", "sub", "findall", "finditer", "search"):
             def _re(it, a, k, attr=attr):
                 return _re_fold(attr, a, k)
@@ -1011,7 +1015,13 @@ class Interp:
                 self.exec_block(st.body, env)
             else:
                 cm = self.eval(ce, env)
-                if isinstance(cm, Ext) and hasattr(cm, "sym_enter"):
+                if isinstance(cm, SuppressContext):
+                    try:
+                        self.exec_block(st.body, env)
+                    except PyRaise as e:
+                        if not any(_exc_covers(nm, e.exc_type) for nm in cm.names):
+                            raise
+                elif isinstance(cm, Ext) and hasattr(cm, "sym_enter"):
                     val = cm.sym_enter(self)
                     if st.items[0].optional_vars is not None:
                         env[st.items[0].optional_vars.id] = val
@@ -2492,6 +2502,35 @@ class Ext:
 
     def sym_getattr(self, it, attr):
         raise Undecided(f"attribute {attr} of {type(self).__name__}")
+
+
+class NullContext(Ext):
+    """contextlib.nullcontext(x) as a value: entering it gives x, leaving it does nothing."""
+
+    def __init__(self, value):
+        self.value = value
+
+    def sym_copy(self):
+        return self
+
+    def sym_truth(self, it):
+        return True
+
+    def sym_enter(self, it):
+        return self.value
+
+
+class SuppressContext(Ext):
+    """contextlib.suppress(E...) as a value."""
+
+    def __init__(self, names):
+        self.names = tuple(names)
+
+    def sym_copy(self):
+        return self
+
+    def sym_truth(self, it):
+        return True
 
 
 class ConstRegex(Ext):
